@@ -1,4 +1,7 @@
 SPECIFICATION Spec
-CONSTANTS Thorough = FALSE CutAll = 170 BigLimit = 400
+CONSTANTS
+  Thorough = FALSE
+  CutAll = 170
+  BigLimit = 400
 INVARIANT Emit
 CHECK_DEADLOCK FALSE
